@@ -7,3 +7,16 @@ import os
 
 def thorough():
     return os.environ.get("VERIF_TIER") == "thorough"
+
+
+def clone_for(con, prefix, note=None):
+    """the same contract (same target, setup, clauses, canaries) instantiated under another property: the function is one of the mechanisms that
+    property depends on too, so a change that breaks it is reported there by a named obligation and not only by the bounded check"""
+    import copy
+    c = copy.copy(con)
+    c.name = prefix + con.name[con.name.index("."):]
+    c.note = (note or "shared with %s" % con.name.split(".")[0]) + ((" - " + con.note) if con.note else "")
+    for attr in ("_base_discharged", "_base_all"):
+        if hasattr(c, attr):
+            delattr(c, attr)
+    return c
